@@ -278,5 +278,163 @@ def run(prog: Program, roots=None, prop="C14", rid_prefix="R-C14") -> Results:
     if cache_like or rts.node.decorator_list:
         res.add(f"{rid_prefix}-4", (rts.key, "resolver keeps state"), rts.loc(),
                 f"{rts.key} stores state on the document / is decorated: the resolved target set may be stale on a later access")
+    if prop == "C14":
+        lookup_failures(prog, res, f"{rid_prefix}-6")
+        identity_of_bindings(prog, res, f"{rid_prefix}-7")
     res.tables.append(f"sa/rules/c14.py:REVIEWED_NO_MIRROR ({len(REVIEWED_NO_MIRROR)} entries)")
     return res
+
+
+MAPPING_CLASSES = {"AttributeSet", "NixSourceCode", "Scope", "LetExpression", "WithStatement", "Import", "NixList"}
+
+
+def returns_mapping(prog: Program, g, seen=None) -> bool:
+    """every `return` of g yields a package mapping: annotated so, or each returned name is established by an isinstance test /
+    a `case Class()` arm on it, or is the result of a call that itself returns a mapping (recursion included)"""
+    from sa.cfg import CFG, edges_establishing
+    from sa.util import callee, parent_map
+    seen = seen or set()
+    if g.key in seen:
+        return True
+    seen = seen | {g.key}
+    ret = ast.unparse(g.node.returns).replace('"', "") if g.node.returns is not None else ""
+    if ret and "Any" not in ret and any(c in ret for c in MAPPING_CLASSES) and "None" not in ret:
+        return True
+    rets = [rt for rt in walk_no_nested(g.node) if isinstance(rt, ast.Return)]
+    if not rets:
+        return False
+    cfg = CFG(g.node)
+    pm = parent_map(g.node)
+    for rt in rets:
+        v = rt.value
+        if v is None:
+            return False
+        if isinstance(v, ast.Call):
+            tgt = None
+            if isinstance(v.func, ast.Name):
+                h = g
+                while h is not None and tgt is None:
+                    tgt = h.nested.get(v.func.id)
+                    h = h.parent
+                tgt = tgt or (prog.funcs.get(v.func.id) if v.func.id in prog.funcs and prog.funcs[v.func.id].cls is None else None)
+            elif isinstance(v.func, ast.Attribute) and isinstance(v.func.value, ast.Name) and v.func.value.id == "self" and g.cls:
+                tgt = prog.method(g.cls, v.func.attr)
+            if tgt is None or not returns_mapping(prog, tgt, seen):
+                return False
+            continue
+        if isinstance(v, ast.Name):
+            e = edges_establishing(cfg, lambda a, t, _x=v.id: t is True and isinstance(a, ast.Call) and callee(a) == "isinstance" and a.args
+                                   and norm(a.args[0]) == _x and any(c in norm(a.args[1]) for c in MAPPING_CLASSES))
+            node = cfg.containing(rt)
+            if e and node is not None and cfg.all_paths_pass(node, cut_edges=e):
+                continue
+            cur, ok = rt, False
+            while cur in pm:
+                par = pm[cur]
+                if isinstance(par, ast.match_case) and isinstance(pm.get(par), ast.Match) and norm(pm[par].subject) == v.id:
+                    pats = par.pattern.patterns if isinstance(par.pattern, ast.MatchOr) else [par.pattern]
+                    ok = all(isinstance(p_, ast.MatchClass) and norm(p_.cls) in MAPPING_CLASSES for p_ in pats)
+                    break
+                cur = par
+            if ok:
+                continue
+        return False
+    return True
+
+
+def lookup_failures(prog: Program, res: Results, rid: str) -> None:
+    """a key lookup on a mapping fails with KeyError: an item access `x[key]` inside a mapping dunder is applied only to a value
+    that is known to be a mapping (self, a call annotated to return one, or guarded by isinstance / hasattr)"""
+    from sa.cfg import CFG, ReachingDefs, edges_establishing
+    from sa.util import callee, handler_names, parent_map
+    r = res.rule(rid, "a missing key raises KeyError, not TypeError: inside __getitem__/__setitem__/__delitem__ every key access "
+                 "`x[key]` is applied to self, to the result of a function annotated to return a package mapping, or under an "
+                 "isinstance/hasattr guard (or inside `try … except TypeError`)", floor=3)
+    for f in prog.all_functions():
+        if not (f.cls in MAPPING_CLASSES and f.name in ("__getitem__", "__setitem__", "__delitem__", "__contains__")):
+            continue
+        subs = [n for n in walk_no_nested(f.node) if isinstance(n, ast.Subscript) and isinstance(n.value, ast.Name) and n.value.id != "self"
+                and isinstance(n.slice, (ast.Name, ast.Attribute))]
+        if not subs:
+            continue
+        cfg = CFG(f.node)
+        rd = ReachingDefs(cfg)
+        pm = parent_map(f.node)
+        res.analysed_functions.add(f.key)
+        for n in subs:
+            x = n.value.id
+            # index-like keys (enumerate / range counters) are list positions, not mapping keys
+            if isinstance(n.slice, ast.Name) and any(isinstance(l, ast.For) and isinstance(l.iter, ast.Call) and callee(l.iter) in ("enumerate", "range")
+                                                     and n.slice.id in {y.id for y in ast.walk(l.target) if isinstance(y, ast.Name)} for l in ast.walk(f.node)):
+                continue
+            r.instances += 1
+            defs = rd.defs_for_use(n, x)
+            why = []
+            for d in defs:
+                v = d.value if isinstance(d, (ast.Assign, ast.AnnAssign)) else None
+                ok_d = False
+                if isinstance(v, ast.Name) and v.id == "self":
+                    ok_d = True
+                elif isinstance(v, ast.Call):
+                    tgt = None
+                    if isinstance(v.func, ast.Attribute) and isinstance(v.func.value, ast.Name) and v.func.value.id == "self":
+                        tgt = prog.method(f.cls, v.func.attr)
+                    elif isinstance(v.func, ast.Name) and v.func.id in prog.funcs:
+                        tgt = prog.funcs[v.func.id]
+                    if tgt is not None:
+                        ret = ast.unparse(tgt.node.returns) if tgt.node.returns is not None else ""
+                        if any(c in ret.replace('"', "") for c in MAPPING_CLASSES) and "Any" not in ret:
+                            ok_d = True
+                        elif returns_mapping(prog, tgt):
+                            ok_d = True
+                        elif tgt.name in ("_follow_import",):
+                            rets = [rt for rt in ast.walk(tgt.node) if isinstance(rt, ast.Return) and rt.value is not None]
+                            ok_d = bool(rets) and all(isinstance(rt.value, ast.Call) and callee(rt.value) == "parse_file" for rt in rets)
+                if not ok_d:
+                    why.append(norm(d)[:50] if not isinstance(d, str) else "parameter")
+            guarded = False
+            if why:
+                e = edges_establishing(cfg, lambda a, t, _x=x: t is True and isinstance(a, ast.Call) and callee(a) in ("isinstance", "hasattr")
+                                       and a.args and norm(a.args[0]) == _x and (callee(a) == "hasattr" or any(c in norm(a.args[1]) for c in MAPPING_CLASSES)))
+                node = cfg.containing(n)
+                guarded = bool(e) and node is not None and cfg.all_paths_pass(node, cut_edges=e)
+                cur = n
+                while not guarded and cur in pm:
+                    cur = pm[cur]
+                    if isinstance(cur, ast.Try) and any(set(handler_names(h)) & {"TypeError", "Exception", None} for h in cur.handlers) \
+                            and any(n is y for b in cur.body for y in ast.walk(b)):
+                        guarded = True
+            ok = not why or guarded
+            r.ob(ok, {"site": f.key, "access": norm(n), "definitions": [norm(d)[:40] if not isinstance(d, str) else d for d in defs]})
+            if not ok:
+                res.add(rid, (f.key, "key access on a value of unknown kind", norm(n)), f.loc(n),
+                        f"{f.key}: `{norm(n)}` indexes `{x}`, which may be any document value here ({'; '.join(why)[:100]}): when a prefix of "
+                        f"the key is bound to a number, string or list the lookup of the missing key escapes with TypeError instead of "
+                        f"KeyError")
+
+
+def identity_of_bindings(prog: Program, res: Results, rid: str) -> None:
+    """bindings are shared by identity between `values` and the render order (`attrpath_order`, `_AttrpathEntry.binding`, also
+    in the *parent* set and in let layers): an update must mutate the located Binding, never substitute a copy"""
+    from sa.util import callee
+    r = res.rule(rid, "updating an existing key mutates the located Binding in place: no mapping dunder stores a new object into a "
+                 "slot of `values` / a scope (`c[i] = …`), because parents and let layers render the same binding through "
+                 "identity-shared order entries that such a substitution cannot reach", floor=4)
+    for f in prog.all_functions():
+        if not (f.cls in MAPPING_CLASSES and f.name in ("__setitem__", "__delitem__")):
+            continue
+        r.instances += 1
+        bad = []
+        for n in walk_no_nested(f.node):
+            if isinstance(n, ast.Assign):
+                for t in n.targets:
+                    if isinstance(t, ast.Subscript) and not isinstance(t.slice, ast.Slice):
+                        base = norm(t.value)
+                        if base in ("self.values", "self", "self.local_variables", "self.scope") or base.endswith(".values"):
+                            bad.append((n, base))
+        r.ob(not bad, {"site": f.key})
+        for n, base in bad:
+            res.add(rid, (f.key, "binding object substituted", base), f.loc(n),
+                    f"{f.key}: `{norm(n)[:70]}` replaces an element of `{base}` by another object: order entries held by the parent set / "
+                    f"let layer (`_AttrpathEntry.binding`) still point at the old Binding, so the rebuilt text keeps the old value while "
+                    f"lookups report the new one")
